@@ -76,6 +76,12 @@ fn account(st: &mut Stats, w: &World, e: &Exec, c19_set: &mut HashSet<u64>, c09_
     st.add("probes.preempt_in_match_report", ss.preempt_in_report);
     st.add("probes.preempt_in_compile", ss.preempt_in_compile);
     st.max("max.inflight_same_regex_object", ss.max_inflight_same_obj);
+    if w.threads.len() >= 9 {
+        st.add("probes.crowd_worlds", 1);
+        if ss.max_inflight_same_obj >= 9 {
+            st.add("probes.crowd_worlds_with_9_or_more_searches_in_flight_on_one_object", 1);
+        }
+    }
     for p in [&e.p1, &e.p2, &e.p3] {
         st.add("faults.cancel", p.stats.cancel_fired);
         st.add("faults.fuel", p.stats.fuel_fired);
@@ -203,7 +209,8 @@ fn violation_file(w: &World, e: &Exec, v: &simcore::run::Violation, seed: u64, r
         .set("clause", J::s(&v.clause))
         .set("seed", J::u(seed))
         .set("run", J::u(run))
-        .set("profile", J::s(prop_profile));
+        .set("profile", J::s(prop_profile))
+        .set("build", J::s(simcore::build_name()));
     if let J::Obj(o) = w.to_json(&e.p2.trace) {
         for (k, val) in o {
             j.put(&k, val);
@@ -321,6 +328,11 @@ fn cmd_replay(args: &[String]) -> i32 {
             return 2;
         }
     };
+    let want_build = j.get("build").and_then(|v| v.as_str()).unwrap_or("default");
+    if want_build != simcore::build_name() {
+        eprintln!("HARNESS-ERROR: this replay file was recorded by the '{}' build of the simulator, this binary is the '{}' build; use ./check replay <file>", want_build, simcore::build_name());
+        return 2;
+    }
     if let Some(c) = arg(args, "--cpu").and_then(|s| s.parse::<usize>().ok()) {
         driver::pin_to_cpu(c);
     } else {
@@ -328,6 +340,18 @@ fn cmd_replay(args: &[String]) -> i32 {
     }
     let prop = j.get("property").and_then(|v| v.as_str()).unwrap_or("").to_string();
     let clause = j.get("clause").and_then(|v| v.as_str()).unwrap_or("").to_string();
+    if j.get("worker_rerun").is_some() {
+        // reproducible only inside the worker invocation that found it: re-run that slice
+        let exe = std::env::current_exe().expect("exe");
+        let scratch = std::env::temp_dir().join(format!("iterworld-rerun-{}", std::process::id()));
+        let hit = driver::worker_rerun_reproduces(&exe, &j, &scratch);
+        let verbose = !args.iter().any(|a| a == "--quiet");
+        if verbose {
+            println!("replay {}: property={} clause={} (worker slice re-run)", path, prop, clause);
+            println!("{}", if hit { format!("REPRODUCED property={} clause={}", prop, clause) } else { "NOT-REPRODUCED".to_string() });
+        }
+        return if hit { 1 } else { 0 };
+    }
     // Process-global residue: first re-execute the worlds that ran earlier in the same process.
     let prefix = prefix_runs(&j);
     if !prefix.is_empty() {
